@@ -457,13 +457,16 @@ pub const RULE_C15: &str = "a case is one long sequential workload over a small 
 
 fn sig_for(w: &W, status: u16, prior: &str) -> String {
     let k = w.kind();
+    // `prior` is what the store physically held before the command ("present" also covers a record that
+    // has expired but was not collected yet): the classification is purely observational
     if w.is_store() && status == st::OK && prior != "absent" {
         return format!("acct-drift:{}:overwrite", k);
     }
     if w.is_store() && status == st::EXISTS && k != "add" {
         return format!("acct-drift:{}:cas-mismatch", k);
     }
-    if prior == "expired" {
+    if prior == "present" && status == st::NOT_FOUND && k != "delete" {
+        // the record was there and the command says 'not found': it had expired and was collected
         return "acct-drift:lazy-expiry-collected".to_string();
     }
     if k == "flush" {
@@ -509,12 +512,13 @@ pub fn run_c15(ctx: &Ctx) -> i32 {
                     }
                     let mut rng = SmallRng::seed_from_u64(ctx.case_seed("acct", c));
                     evals += 1;
-                    let viols = match if ctx.prop == "C02" { 4 } else { c % 5 } {
+                    let viols = match if ctx.prop == "C02" { 4 } else { c % 6 } {
                         0 => acct_run(ctx, c, &mut rng, &mut local, &mut fps),
                         1 => fragment_run(c, &mut rng, &mut local, &mut fps),
                         2 => pressure_run(c, &mut rng, &mut local, &mut fps),
                         3 => overwrite_run(c, &mut rng, &mut local, &mut fps),
-                        _ => tight_run(c, &mut rng, &mut local, &mut fps),
+                        4 => tight_run(c, &mut rng, &mut local, &mut fps),
+                        _ => racing_run(ctx, c, &mut rng, &mut local, &mut fps),
                     };
                     if !viols.is_empty() {
                         let mut e = shared.lock().unwrap();
@@ -523,7 +527,7 @@ pub fn run_c15(ctx: &Ctx) -> i32 {
                         }
                     }
                     if c < 3 {
-                        let kind = ["accounting identity per command", "drift-free fragment (behavioural)", "pressure phase then small live set (behavioural)", "overwrite-heavy workload under a generous limit (behavioural form of the known drift)", "store filled exactly to its limit, then one conditional command carrying a stale CAS"][if ctx.prop == "C02" { 4 } else { (c % 5) as usize }];
+                        let kind = ["accounting identity per command", "drift-free fragment (behavioural)", "pressure phase then small live set (behavioural)", "overwrite-heavy workload under a generous limit (behavioural form of the known drift)", "store filled exactly to its limit, then one conditional command carrying a stale CAS", "concurrent readers / deleters of one expired key under a forced schedule; accounting compared at quiescence"][if ctx.prop == "C02" { 4 } else { (c % 6) as usize }];
                         shared.lock().unwrap().sample(json!({"case": c, "kind": kind}));
                     }
                 }
@@ -550,8 +554,6 @@ fn acct_run(ctx: &Ctx, case: u64, rng: &mut SmallRng, local: &mut BTreeMap<Strin
     let n = 4000;
     let mut out: Vec<RunErr> = vec![];
     let mut seen_sigs: HashMap<String, u64> = HashMap::new();
-    // shadow of what the harness stored, for the classification of the key's prior state only
-    let mut shadow: HashMap<usize, (u64, u32)> = HashMap::new();
     let mut trace: Vec<String> = vec![];
     let mut kinds: std::collections::HashSet<&'static str> = Default::default();
     #[cfg(memcrs_verif)]
@@ -564,12 +566,6 @@ fn acct_run(ctx: &Ctx, case: u64, rng: &mut SmallRng, local: &mut BTreeMap<Strin
     let mut drift_prev: i128 = usage() as i128 - stack.content_size().1 as i128;
     for i in 0..n {
         let w = gen_w(rng, nkeys, 120, true, true);
-        let w = match w {
-            // delayed flushes change TTLs in an implementation-specific way; the classification of
-            // prior states below does not mirror that, so only immediate flushes here
-            W::Flush { .. } => W::Flush { delay: None },
-            x => x,
-        };
         if let W::Advance(d) = w {
             stack.timer.advance(d);
             continue;
@@ -581,10 +577,7 @@ fn acct_run(ctx: &Ctx, case: u64, rng: &mut SmallRng, local: &mut BTreeMap<Strin
                 if stored_len(&stack, &keyname(k)).is_none() {
                     "absent"
                 } else {
-                    match shadow.get(&k) {
-                        Some((at, ttl)) if *ttl != 0 && at + *ttl as u64 <= now => "expired",
-                        _ => "present",
-                    }
+                    "present"
                 }
             }
         };
@@ -594,28 +587,6 @@ fn acct_run(ctx: &Ctx, case: u64, rng: &mut SmallRng, local: &mut BTreeMap<Strin
         trace.push(format!("#{} t={} {:?} [{}] -> {:#x}", i, now, w, prior, status));
         if trace.len() > 40 {
             trace.remove(0);
-        }
-        if let Some(k) = w.key() {
-            if w.is_store() && status == st::OK {
-                let ttl = match &w {
-                    W::Set { ttl, .. } => *ttl,
-                    W::Add { .. } | W::Replace { .. } => 0,
-                    _ => {
-                        // keeps the item's TTL (a counter created on an absent/expired key has none)
-                        if prior == "present" {
-                            shadow.get(&k).map(|x| x.1).unwrap_or(0)
-                        } else {
-                            0
-                        }
-                    }
-                };
-                shadow.insert(k, (now, ttl));
-            } else if matches!(w, W::Delete { .. }) && status == st::OK {
-                shadow.remove(&k);
-            }
-        }
-        if matches!(w, W::Flush { .. }) {
-            shadow.clear();
         }
         let (nrec, bytes) = stack.content_size();
         let acct = usage();
@@ -734,6 +705,96 @@ fn fragment_run(case: u64, rng: &mut SmallRng, local: &mut BTreeMap<String, u64>
         }
     }
     fps.push(fnv(format!("fragment:{}:{}", l, nkeys).as_bytes()));
+    vec![]
+}
+
+/// (d) several clients touch the same expired-but-uncollected record at once (forced schedule: one of
+/// them is parked right after it has read the record, the others run to completion, then it resumes).
+/// At quiescence the accounted usage must not be *below* the stored bytes (upward drift is the known
+/// finding; a refund given twice is not), and a further store must not evict the live items.
+fn racing_run(ctx: &Ctx, case: u64, rng: &mut SmallRng, local: &mut BTreeMap<String, u64>, fps: &mut Vec<u64>) -> Vec<RunErr> {
+    let stack = Stack::new(StoreKind::Random(64 << 20), 100);
+    let policy = stack.policy.clone().unwrap();
+    let mut conn = Conn::new(stack.memc.clone(), 1 << 20);
+    let nlive = 8usize;
+    for k in 0..nlive {
+        let _ = one(&mut conn, W::Set { k, len: 20, ttl: 0, cas: 0 }.frame(0).unwrap());
+    }
+    // the expiring record is larger than everything else together
+    let _ = one(&mut conn, W::Set { k: 50, len: 2000, ttl: 5, cas: 0 }.frame(0).unwrap());
+    stack.timer.advance(10);
+    let nthreads = rng.gen_range(2..=4usize);
+    let ops: Vec<W> = (0..nthreads)
+        .map(|_| match rng.gen_range(0..4) {
+            0 => W::Delete { k: 50, cas: 0 },
+            1 => W::Append { k: 50, len: 3 },
+            _ => W::Get { k: 50 },
+        })
+        .collect();
+    let points: [&'static str; 4] = ["cache.get.read", "cache.get.read", "store.expire.decided", "timer.read"];
+    let parked = rng.gen_range(0..nthreads);
+    let mode = rng.gen_range(0..4);
+    let mut ops = ops;
+    if mode != 0 {
+        // the parked client is a reader (or an append, which reads first): it passes the points above
+        ops[parked] = if rng.gen_bool(0.7) { W::Get { k: 50 } } else { W::Append { k: 50, len: 3 } };
+    }
+    let parks = if mode == 0 {
+        vec![]
+    } else {
+        vec![Park { client: parked, point: points[rng.gen_range(0..points.len())], nth: 0, wait_for: (0..nthreads).filter(|x| *x != parked).collect() }]
+    };
+    let ctl = Ctl::new(nthreads, parks.clone(), if mode == 0 { Some((500, 80)) } else { None }, ctx.case_seed("racing", case));
+    let barrier = Arc::new(Barrier::new(nthreads));
+    let mut hs = vec![];
+    for (ci, w) in ops.iter().enumerate() {
+        let (ctl, barrier, memc, w) = (ctl.clone(), barrier.clone(), stack.memc.clone(), w.clone());
+        hs.push(std::thread::spawn(move || {
+            gate::bind(Some((ctl.clone(), ci)));
+            let mut conn = Conn::new(memc, 1 << 20);
+            barrier.wait();
+            let _ = one(&mut conn, w.frame(ci as u32).unwrap());
+            ctl.op_done(ci);
+            ctl.finished(ci);
+            gate::bind(None);
+        }));
+    }
+    for h in hs {
+        let _ = h.join();
+    }
+    *local.entry("racing:runs".into()).or_insert(0) += 1;
+    *local.entry("racing:windows_hit".into()).or_insert(0) += ctl.windows_hit.load(Ordering::SeqCst);
+    #[cfg(memcrs_verif)]
+    let acct = policy.verif_memory_usage();
+    #[cfg(not(memcrs_verif))]
+    let acct = {
+        let _ = &policy;
+        u64::MAX / 4
+    };
+    let (nrec, bytes) = stack.content_size();
+    let desc = json!({"engine":"acct-racing","case":case,"commands":format!("{:?}", ops),"schedule":format!("{:?}", parks),"accounted":acct as i64,"stored_bytes":bytes,"records":nrec});
+    if ctl.windows_hit.load(Ordering::SeqCst) > 0 || mode == 0 {
+        fps.push(fnv(format!("racing:{:?}:{}", ops.iter().map(|o| o.kind()).collect::<Vec<_>>(), mode).as_bytes()));
+    }
+    *local.entry("racing:quiescent_comparisons".into()).or_insert(0) += 1;
+    if acct > (1 << 62) || acct < bytes {
+        return vec![(
+            Viol::new(&["C15", "C14"], "under-accounting", format!("after {} clients touched one expired record concurrently the accounted usage is {} while {} bytes are stored", nthreads, acct as i64, bytes)),
+            desc,
+        )];
+    }
+    // behavioural: one more store, the live items must survive
+    let _ = one(&mut conn, W::Set { k: 60, len: 10, ttl: 0, cas: 0 }.frame(0).unwrap());
+    let mut lost = vec![];
+    for k in 0..nlive {
+        *local.entry("racing:live_key_probes".into()).or_insert(0) += 1;
+        if one(&mut conn, W::Get { k }.frame(0).unwrap()).map(|r| r.status != st::OK).unwrap_or(true) {
+            lost.push(k);
+        }
+    }
+    if !lost.is_empty() {
+        return vec![(Viol::new(&["C15"], "live-key-lost:after-concurrent-expiry", format!("live keys {:?} were evicted under a 64 MiB limit with {} bytes stored", lost, bytes)), desc)];
+    }
     vec![]
 }
 
